@@ -161,6 +161,7 @@ func runC17(k *kernel.K) {
 			h := l.Export()
 			var parts []string
 			for _, e := range h.Log.Entries {
+				c17EntryDescribes(k, e, "Export")
 				flag := "0"
 				if e.Response != nil {
 					flag = "1"
@@ -172,6 +173,7 @@ func runC17(k *kernel.K) {
 			h := l.ExportAndReset()
 			var parts []string
 			for _, e := range h.Log.Entries {
+				c17EntryDescribes(k, e, "ExportAndReset")
 				if e.Response == nil {
 					parts = append(parts, e.ID+"(pending!)")
 				} else {
@@ -299,5 +301,17 @@ func runC17(k *kernel.K) {
 	}
 	if ncall == 1 && len(hist) <= 6 {
 		k.Probe("sequential_len_le6_2ids")
+	}
+}
+
+// c17EntryDescribes: whatever an export lists is an entry of the exchange with that ID (property
+// C16 seen from the concurrent API: an entry must never be visible before its request is in it).
+func c17EntryDescribes(k *kernel.K, e *har.Entry, op string) {
+	if e.Request == nil {
+		k.Fail("C16.request_fields", map[string]string{"field": "request_missing_in_export"}, "%s listed the entry of exchange %q without a request (the entry became visible before its request was recorded)", op, e.ID)
+		return
+	}
+	if want := "http://origin.test/" + e.ID; e.Request.URL != want || e.Request.Method != "POST" {
+		k.Fail("C16.request_fields", map[string]string{"field": "request_of_other_exchange"}, "%s listed the entry of exchange %q with request %s %s, want POST %s", op, e.ID, e.Request.Method, e.Request.URL, want)
 	}
 }
